@@ -73,6 +73,13 @@ CHECKS = {
             'prove absence.',
             'Trusted: the 120-line model in checks/c10.py; Hypothesis; harness table in vlib/htables.py.',
             'DESIGN.md section 4, C10'),
+    'C15': ('enumerated pivot-position x reference-form matrix + Hypothesis table/query generation; expected pivot computed from the un-pivoted engine result (itself checked against the reference model); un-pivot round trip; enumerated invalid references',
+            'The pivoted result is compared (names, datatypes, rows, NULL fill, ascending block order incl. multi-digit '
+            'integers) with a reshaping of the un-pivoted result of the same query, un-pivoting must give every original '
+            'row back, by-name and by-position references must agree, and 25 kinds of invalid reference must raise '
+            'CompilationError from text and from AST.',
+            'Trusted: refmodel.pivot (20 lines); pivot keys are non-NULL comparable scalars.',
+            'DESIGN.md section 4, C15'),
 }
 
 ALL = [f'C{i:02d}' for i in range(1, 21)]
